@@ -48,6 +48,8 @@ pub(crate) fn run_explain_impl(args: &ExplainArgs, cli: &Cli) -> crate::Result<(
 
     // INVARIANT: Clap enforces path is required when --sources is not set
     let path = args.path.as_ref().expect("clap enforces path requirement");
+    // Same spelling as `check` uses, so that both name the same rule for the same file
+    let path = &crate::commands::context::canonical_target(path);
 
     if path.is_file() {
         let checker = ThresholdChecker::new(config)?;
